@@ -130,6 +130,13 @@ func newStreamRun(n int) (*streamRun, error) {
 		sr.sent = append(sr.sent, b)
 		sr.rc.feed(append([]byte(nil), b...))
 	}
+	// a frame whose underlying write "fails": the sealed frame is recorded, only its first `pass` bytes reach the wire
+	sr.wc.onFault = func(full []byte, pass int) {
+		sr.sent = append(sr.sent, full)
+		if pass > 0 {
+			sr.rc.feed(append([]byte(nil), full[:pass]...))
+		}
+	}
 	sr.wc.mu.Unlock()
 	return sr, nil
 }
@@ -287,10 +294,73 @@ func TestStream(t *testing.T) {
 		}
 		detail := map[string]interface{}{"hist": l.H, "dir": sr.dir, "seed": mbt.Seed(), "line": n, "cfg": tag}
 		nontrivial := false
+		delivered, manips, readFaults := 0, 0, 0
 		for k, a := range l.H {
 			op := a[0].(string)
 			wantClass, wantN, wantOff := a[4].(string), ai(a[5]), ai(a[6])
 			switch op {
+			case "wf":
+				// Write(nb) whose kf-th underlying frame write reports an error after `pass` of the 1044 bytes went out
+				nontrivial = true
+				nb, kf, pass := ai(a[1]), ai(a[2]), ai(a[3])
+				sr.wc.mu.Lock()
+				sr.wc.wfIn, sr.wc.wfPass = kf, pass
+				sr.wc.mu.Unlock()
+				var got int
+				var werr error
+				func() {
+					defer recoverTo(&werr)
+					got, werr = sr.w.Write(pat[sr.total : sr.total+nb])
+				}()
+				if werr != nil && len(werr.Error()) >= 5 && werr.Error()[:5] == "PANIC" {
+					res.Mismatch(pfx+"write:panic", fmt.Sprintf("step %d of %v: Write panicked on a failing underlying write: %v", k+1, l.H, werr), detail)
+					return
+				}
+				if werr == nil {
+					res.Mismatch(pfx+"write:fault-swallowed", fmt.Sprintf("step %d of %v: the underlying write of frame %d of Write(%d) returned an error, Write returned (%d, nil): the application is told that bytes are out which are not", k+1, l.H, kf, nb, got), detail)
+					return
+				}
+				if got != wantN {
+					res.Add("write_fault_count_divergence", 1) // how many bytes Write reports next to the error is lock-step only
+					return
+				}
+				// the failed frame has been sealed: its data are stream positions like any other frame's
+				adv := kf * 1024
+				if adv > nb {
+					adv = nb
+				}
+				sr.total += adv
+			case "rf":
+				// Read(nb) whose underlying read fails after `at` bytes of the frame
+				nontrivial = true
+				readFaults++
+				nb, at := ai(a[1]), ai(a[2])
+				sr.rc.mu.Lock()
+				sr.rc.rfAfter = at
+				sr.rc.served = nil
+				sr.rc.mu.Unlock()
+				buf := make([]byte, nb)
+				var got int
+				var rerr error
+				func() {
+					defer recoverTo(&rerr)
+					got, rerr = sr.r.Read(buf)
+				}()
+				sr.rc.mu.Lock()
+				sr.rc.rfAfter = -1
+				sr.rc.mu.Unlock()
+				if rerr != nil && len(rerr.Error()) >= 5 && rerr.Error()[:5] == "PANIC" {
+					res.Mismatch(pfx+"read:panic", fmt.Sprintf("step %d of %v: Read panicked on a failing underlying read: %v", k+1, l.H, rerr), detail)
+					return
+				}
+				if got > 0 {
+					res.Mismatch(pfx+"read:data-on-failed-read", fmt.Sprintf("step %d of %v: the underlying read failed after %d bytes of the frame, Read(%d) returned (%d, %v)", k+1, l.H, at, nb, got, rerr), detail)
+					return
+				}
+				if rerr == nil {
+					res.Add("read_fault_divergence", 1) // (0, nil): nothing delivered, nothing wrong; lock-step lost
+					return
+				}
 			case "w":
 				nb := ai(a[1])
 				var got int
@@ -341,6 +411,11 @@ func TestStream(t *testing.T) {
 				case wantClass == "err" && rerr == nil && sr.spliced():
 					res.Add("skipped_cut_restored_by_identical_bytes", 1)
 					return
+				case wantClass == "err" && rerr == nil && readFaults > 0 && manips == 0 && delivered+got <= len(pat) && bytes.Equal(buf[:got], pat[delivered:delivered+got]):
+					// a connection that keeps the bytes of a frame across a failed underlying read and goes on
+					// correctly satisfies C20 as well: the next bytes in order were delivered
+					res.Add("read_fault_recovery_divergence", 1)
+					return
 				case wantClass == "err" && rerr == nil:
 					res.Mismatch(pfx+"read:data-instead-of-error", fmt.Sprintf("step %d of %v: Read(%d) returned %d bytes and no error where the specification reports an error (manipulated / missing frame delivered)", k+1, l.H, nb, got), detail)
 					return
@@ -363,9 +438,11 @@ func TestStream(t *testing.T) {
 						res.Add("read_length_divergence", 1)
 						return
 					}
+					delivered += got
 				}
 			default:
 				nontrivial = true
+				manips++
 				if err := sr.manip(a); err != nil {
 					res.Mismatch("infra:stream-manip", err.Error(), detail)
 					return
